@@ -233,6 +233,14 @@ func replayOne(ti int, tr mbt.Trace, rep *mbt.Report) {
 				tornCrash[mbt.Int(st.Args[0])] = true
 				// the cut position inside the last WAL line is derived from the position in the behaviour
 				aerr = s.CrashTorn(mbt.Int(st.Args[0]), (si*37+variant*11)%97)
+			case "RotateWAL":
+				// pseudo step inserted by the engine: the autofile group's size check moves the head file away in the
+				// middle of a height; invisible to the specification (the log content is the same), so the state must not
+				// change now and a later Restart must still replay every record of the height
+				if n := s.Nodes[mbt.Int(st.Args[0])]; n.Up && n.CS != nil {
+					n.CS.VerifRotateWAL()
+					rep.Count("wal_rotations")
+				}
 			case "Restart":
 				aerr = s.Restart(mbt.Int(st.Args[0]))
 				if aerr != nil {
